@@ -85,32 +85,36 @@ ElemStratum(g, c) ==
   ELSE "Egen"
 
 ---------------------------------------------------------------------------
+\* events whose operands come from the exactly representable lattice (spec/LatticeGroups.tla) carry x = 1:
+\* every product is exact in binary floating point, so results are compared WITHOUT tolerance
+TolE(e, t) == IF "x" \in DOMAIN e THEN R0 ELSE t
+
 \* C01
 TCompose(e) ==
   LET g == e.g  a == V(e.a)  b == V(e.b)  z == V(e.out)
-  IN ElemChk("C01.compose", g, z, XCompose(g, a, b), TolC01(e.sc))
+  IN ElemChk("C01.compose", g, z, XCompose(g, a, b), TolE(e, TolC01(e.sc)))
 TInverse(e) ==
   LET g == e.g  a == V(e.a)  z == V(e.out)
-  IN ElemChk("C01.inverse", g, z, XInverse(g, a), TolC01(e.sc))
+  IN ElemChk("C01.inverse", g, z, MInv(GMat(g, a)), TolE(e, TolC01(e.sc)))
 TAssoc(e) ==
   LET g == e.g  A == GMat(g, V(e.a))  B == GMat(g, V(e.b))  C == GMat(g, V(e.c))
       AB == MMul(A, B)  BC == MMul(B, C)
       Y == MMul(AB, C)
       \* relative to the largest intermediate (a product that cancels cannot be more accurate than its factors)
       sc == RMax(R1, RMax(MaxAbs(Y), RMax(MaxAbs(AB), MaxAbs(BC))))
-  IN ScaledChk("C01.assoc", g, V(e.out), Y, TolC01(e.sc), sc) \o ScaledChk("C01.assoc", g, V(e.out2), Y, TolC01(e.sc), sc)
+  IN ScaledChk("C01.assoc", g, V(e.out), Y, TolE(e, TolC01(e.sc)), sc) \o ScaledChk("C01.assoc", g, V(e.out2), Y, TolE(e, TolC01(e.sc)), sc)
 \* g^-1 g = I = g g^-1: the accuracy is relative to the magnitude of the factors (an inverse with entries
 \* of size 1e6 rounded to the scalar type cannot cancel to better than 1e6 * tol)
 TUnits(e) ==
-  LET g == e.g  Ma == GMat(g, V(e.a))  I == MId(Dim(g))  t == TolC01(e.sc)
+  LET g == e.g  Ma == GMat(g, V(e.a))  I == MId(Dim(g))  t == TolE(e, TolC01(e.sc))
       sc == RMax(R1, RMax(MaxAbs(Ma), MaxAbs(XInverse(g, V(e.a)))))
   IN ScaledChk("C01.inverse.left", g, V(e.li), I, t, sc) \o ScaledChk("C01.inverse.right", g, V(e.ri), I, t, sc)
      \o ElemChk("C01.identity.left", g, V(e.le), Ma, t) \o ElemChk("C01.identity.right", g, V(e.re), Ma, t)
 TIdentity(e) ==
   LET g == e.g  X == GMat(g, V(e.out))
   IN Chk("C01.identity", REq(MaxAbsDiff(X, MId(Dim(g))), R0), MaxAbsDiff(X, MId(Dim(g))), R0)
-TMatrixOp(e) == MatChk("C01.matrix", M(e.out), GMat(e.g, V(e.a)), TolC01(e.sc))
-TAct(e) == VecChk("C01.action", V(e.out), GAct(e.g, V(e.a), V(e.v)), TolC01(e.sc))
+TMatrixOp(e) == MatChk("C01.matrix", M(e.out), GMat(e.g, V(e.a)), TolE(e, TolC01(e.sc)))
+TAct(e) == VecChk("C01.action", V(e.out), GAct(e.g, V(e.a), V(e.v)), TolE(e, TolC01(e.sc)))
 
 \* C02
 LogRangeOk(g, lg, sc) ==
@@ -144,11 +148,11 @@ TLog(e) ==
 
 \* C03
 THatOp(e) ==
-  LET g == e.g  a == V(e.a)  t == TolC03(e.sc)
+  LET g == e.g  a == V(e.a)  t == TolE(e, TolC03(e.sc))
   IN MatChk("C03.hatvee.hat", M(e.out), GHat(g, a), t) \o VecChk("C03.hatvee.vee", V(e.vee), a, t)
 TVeeLin(e) == VecChk("C03.hatvee.linear", V(e.out), VAdd(V(e.a), V(e.b)), TolC03(e.sc))
-TAd(e) == MatChk("C03.Ad", M(e.out), XAd(e.g, V(e.a)), TolC03(e.sc))
-Tad(e) == MatChk("C03.ad", M(e.out), Xad(e.g, V(e.a)), TolC03(e.sc))
+TAd(e) == MatChk("C03.Ad", M(e.out), XAd(e.g, V(e.a)), TolE(e, TolC03(e.sc)))
+Tad(e) == MatChk("C03.ad", M(e.out), Xad(e.g, V(e.a)), TolE(e, TolC03(e.sc)))
 TBracket(e) ==
   LET g == e.g  a == V(e.a)  b == V(e.b)  c == V(e.c)  t == TolC03(e.sc)
       Y == XBracket(g, a, b)
